@@ -231,7 +231,10 @@ def failpos_correspondence(tier, seed, lean):
     jobs = c01.build_jobs('quick', seed)
     rng = random.Random(seed)
     if tier == 'quick':
-        jobs = rng.sample(jobs, min(len(jobs), 2500))
+        # lookahead is where a failure can be located away from where the attempt began: those grammars are never sampled away
+        keep = [j for j in jobs if {'not', 'exp'} & set(j['meta'].get('kinds', []))]
+        rest = [j for j in jobs if not ({'not', 'exp'} & set(j['meta'].get('kinds', [])))]
+        jobs = keep[:1500] + rng.sample(rest, min(len(rest), 2000))
     for j in jobs:
         j['cmp_failpos'] = True
     res = corerun.run_jobs(jobs, bits)
@@ -240,7 +243,7 @@ def failpos_correspondence(tier, seed, lean):
     for r in res:
         for m in r['mismatches']:
             if m['kind'] == 'failpos':
-                bad.append({'key': f'failpos|{r["text"]}|{m["input"]}', 'kind': 'model', 'grammar': r['text'], **m,
+                bad.append({**m, 'key': f'failpos|{r["text"]}|{m["input"]}', 'kind': 'model', 'grammar': r['text'],
                             'what': f'ParseError index {m["real"]} differs from the code model {m["gen"]} on {m["input"]!r} [{r["text"].strip()}]'})
     return cmp_, len(res), bad
 
